@@ -134,7 +134,7 @@ func checkC12(p *Prog, r *Report) {
 				})
 				checkIdExcludesDelimiter(p, r, kp, ek+"#Id", site, msg, id, delim[0], vbDominates(e))
 			case "raw:Delete":
-				if rawKeyID(e.Key) == nil || otherFamilyKey(p, e.Key) {
+				if e.Key != nil && otherFamilyKey(p, e.Key) {
 					continue // not the class record: a delete in a family of the module's own
 				}
 				// D2: no tokens left
@@ -694,7 +694,7 @@ func checkPnftClassDeleteGuard(p *Prog, r *Report, kp func(string, string) strin
 		hn := FuncName(fn)
 		w := pnftEffectsFrom(p, fn)
 		for _, e := range w.effects {
-			if e.Kind != "raw:Delete" || rawKeyID(e.Key) == nil || otherFamilyKey(p, e.Key) {
+			if e.Kind != "raw:Delete" || e.Key != nil && otherFamilyKey(p, e.Key) {
 				continue // not a delete of a class record (a family of the module's own: see checkPnftHandlersWriteExportedStateOnly)
 			}
 			n++
